@@ -14,6 +14,7 @@ RULE = ("one case = (method family incl. FSAL / implicit with finite-difference 
         "sub-steps of a terminal landing share one), a dt assigned in a callback is the first attempt of the next step; non-trivial = >=3 callback "
         "invocations; distinct by (method, options, seed)")
 ASSUMPTIONS = ["njev may count since construction or since the last reset (the statement fixes the reset convention only for nfev)"]
+RULE += " Strata added in the fourth seeding round: Richardson wrappers of implicit bases; callbacks that grow the step after every recorded step (assignment following a rejected attempt)."
 FLOORS = {"quick": {"runs": 120, "callback_invocations": 1500, "nfev_checks": 1500, "njev_checks": 100, "runs_with_rejections": 20, "runs_with_failure": 15, "runs_with_reset": 30,
                     "dt_assignments_checked": 150, "terminal_landings": 10, "facade_runs": 20, "dt_assignments_across_calls": 20, "shared_rhs_runs": 14, "grown_dt_runs_with_rejections": 6, "richardson_of_implicit_runs": 3},
           "thorough": {"runs": 1200, "callback_invocations": 15000, "nfev_checks": 15000, "njev_checks": 1000, "runs_with_rejections": 200, "runs_with_failure": 150,
